@@ -121,6 +121,14 @@ func GenSyntax(r *rand.Rand, o SynGenOpts) *Grammar {
 	if s.r.Intn(4) == 0 {
 		splitHeads(s.r, g)
 	}
+	// safety net: an alternative without symbols is written 'empty' (or is 'error' alone)
+	for _, d := range g.NTs {
+		for i := range d.Alts {
+			if a := &d.Alts[i]; len(a.Body) == 0 && !a.Err {
+				a.Empty = true
+			}
+		}
+	}
 	if o.WithErrors && !g.HasErrorAlts() {
 		s.injectErrors(g) // families that place their error alternatives themselves keep exactly those
 	}
@@ -896,8 +904,8 @@ func (s *synGen) injectAmbiguity(g *Grammar) {
 	case 1: // duplicate an alternative of another head (reduce/reduce)
 		o := g.NTs[s.r.Intn(len(g.NTs))]
 		a := o.Alts[s.r.Intn(len(o.Alts))]
-		if !a.Empty {
-			d.Alts = append(d.Alts, alt(a.Body...))
+		if !a.Empty && len(a.Body) > 0 {
+			d.Alts = append(d.Alts, SAlt{Err: a.Err, Body: append([]Sym(nil), a.Body...)})
 		} else {
 			d.Alts = append(d.Alts, alt(nt(d.Head), nt(d.Head)))
 		}
